@@ -618,6 +618,7 @@ func (r *hbRig) runRawPeer(url string, fail func(bool, string, ...any) hbRow) hb
 
 var hbHoldExtra int64
 var hbExact bool
+var hbNames string
 
 func hbScenarios(tier string, seed uint64, only string) []hbScenario {
 	var scs []hbScenario
@@ -702,6 +703,19 @@ func hbScenarios(tier string, seed uint64, only string) []hbScenario {
 			}
 		}
 	}
+	if hbNames != "" {
+		want := map[string]bool{}
+		for _, n := range strings.Split(hbNames, ",") {
+			want[n] = true
+		}
+		var f []hbScenario
+		for _, s := range scs {
+			if want[s.Name] {
+				f = append(f, s)
+			}
+		}
+		return f
+	}
 	if only != "" {
 		var f []hbScenario
 		for _, s := range scs {
@@ -722,6 +736,7 @@ func heartbeatMain(args []string) error {
 	par := fs.Int("par", 24, "scenarios run concurrently")
 	_ = fs.Int("n", 0, "unused")
 	_ = fs.Int("attempt", 0, "re-run counter (only makes the output file name distinct)")
+	fs.StringVar(&hbNames, "names", "", "comma-separated exact scenario names")
 	fs.BoolVar(&hbExact, "exact", false, "-only must match the whole scenario name")
 	fs.Int64Var(&hbHoldExtra, "holdextra", 0, "extra observation time (ms) after a fault")
 	outp := fs.String("out", "-", "")
